@@ -1,5 +1,24 @@
 # C14 — Holder staking payouts: snapshot minimum, proportional, capped
-from . import ledger, purecases
+from . import ledger, purecases, runprop
+
+
+def retried_snapshot_blocks(ctx, scenario, blocks, points):
+    """a snapshot block that fails after the snapshot step and is retried must pay out exactly as an undisturbed one"""
+    recs, summary = runprop.run(ctx, "fault", "scen:" + scenario, ctx.seed, ["-kind", "sql", "-blocks", blocks, "-points", str(points), "-prefix", "snapshot"], timeout=1800)
+    ctx.coverage.setdefault("distribution", {}).setdefault("retried_snapshot_blocks", []).append(dict(summary, scenario=scenario, blocks=blocks))
+    n = int(summary.get("faults_run", 0))
+    ctx.coverage["evaluations"] = ctx.coverage.get("evaluations", 0) + n
+    ctx.coverage["traces_validated_against_impl"] = ctx.coverage.get("traces_validated_against_impl", 0) + n
+    found = False
+    for r in [r for r in recs if r.get("cmd") == "fault" and r.get("violation")][:3]:
+        site = str((r.get("fired") or {}).get("site", "")) or str((r.get("point") or {}).get("site", ""))
+        ctx.add_violation("a snapshot block of scenario %s (seed %d) that failed once at %s and was retried pays out differently from an undisturbed run: %s"
+                          % (scenario, ctx.seed, site, str(r.get("diff", {}).get("only_got", ""))[:300]),
+                          {"kind": "fault", "scenario": scenario, "seed": ctx.seed, "record": r,
+                           "replay_cmd": "harness: runprop fault -work <dir> -scenario scen:%s -seed %d -kind sql -blocks %s -points all" % (scenario, ctx.seed, blocks)},
+                          name="snapshot-retry")
+        found = True
+    return found
 
 
 def run(ctx):
@@ -7,6 +26,7 @@ def run(ctx):
     ctx.proof_stage()
     purecases.run_payouts(ctx)
     ledger.run(ctx)
+    retried_snapshot_blocks(ctx, "corners", "288", 24 if ctx.tier == "quick" else 200)
 
 
 def search(ctx, why):
